@@ -29,6 +29,7 @@ type Obl struct {
 	Output  string
 	File    string
 	MustSat bool // cover obligation: expected sat
+	Quick   bool // known finding / unclaimed: expected not to discharge, use a short timeout
 }
 
 type ShowVar struct {
